@@ -47,10 +47,15 @@ type Cfg struct {
 	FsizeEvents int `json:"fsize_events,omitempty"`
 }
 type Op struct {
-	K       string `json:"k"` // w | reopen | extren | pause | rmdir | rmactive
+	K       string `json:"k"` // w | reopen | extren | pause | rmdir | rmactive | touch | append
 	Size    int    `json:"size,omitempty"`
 	PauseUs int    `json:"pause_us,omitempty"`
 	Ctx     int    `json:"ctx,omitempty"` // w: which kind of context Process is called with (see ctxOf)
+	NilVal  bool   `json:"nil_val,omitempty"` // w with size 0: the formatted value is nil (present in the map) rather than []byte{}
+	Pos     int    `json:"pos,omitempty"`     // touch / append: which file of the sink, 0 = oldest in reading order
+	When    int    `json:"when,omitempty"`    // touch: 0 now, 1 an hour ago, 2 in an hour
+	How     int    `json:"how,omitempty"`     // touch: 0 Chtimes, 1 chmod and back, 2 rewrite in place (same name, content and mode; new inode)
+	Src     int    `json:"src,omitempty"`     // append: the event whose bytes are appended
 }
 type Case struct {
 	ID      int    `json:"id"`
@@ -162,6 +167,9 @@ func ctxOf(kind int) (context.Context, context.CancelFunc) {
 // >= 128, so a fragment of an event can never be completed by what follows it.
 func payload(key int, size int) []byte {
 	b := make([]byte, size)
+	if size == 0 {
+		return b
+	}
 	b[0] = byte(key)
 	x := uint32(key)*2654435761 + 12345
 	for j := 1; j < size; j++ {
@@ -547,7 +555,7 @@ func execSeq(c Case, root string) (res result) {
 	var prev *SObs
 	last := int64(0) // last reading fed to the model
 	nextKey := 1
-	rotations, extrens, ambiguous, certainYes, certainNo, removals := 0, 0, 0, 0, 0, 0
+	rotations, extrens, ambiguous, certainYes, certainNo, removals, tampers := 0, 0, 0, 0, 0, 0, 0
 	lastWasRm := false
 	var steps []step
 	var sigb strings.Builder
@@ -556,7 +564,11 @@ func execSeq(c Case, root string) (res result) {
 	for i := 0; i < n; i++ {
 		var op Op
 		if adaptive {
-			op = genOp(r, c, fs, open, nextKey, lastWasRm)
+			nfiles := 0
+			if prev != nil {
+				nfiles = len(prev.Files)
+			}
+			op = genOp(r, c, fs, open, nextKey, lastWasRm, nfiles)
 			res.c.Ops = append(res.c.Ops, op)
 		} else {
 			op = c.Ops[i]
@@ -570,8 +582,15 @@ func execSeq(c Case, root string) (res result) {
 			key := nextKey
 			nextKey++
 			data := payload(key, op.Size)
-			tk.byKey[byte(key)] = data
-			tk.idOf[byte(key)] = key
+			if op.Size > 0 {
+				tk.byKey[byte(key)] = data
+				tk.idOf[byte(key)] = key
+			} else {
+				res.stats["empty_writes"]++
+				if op.NilVal {
+					data = nil // present in the map, nil: Event.Format reports it as existing
+				}
+			}
 			ev := &el.Event{Formatted: map[string][]byte{el.JSONFormat: data}}
 			lcPrev := fs.LastCreated
 			before := stampsOf(prev)
@@ -730,6 +749,54 @@ func execSeq(c Case, root string) (res result) {
 			last = t
 			steps = append(steps, step{"XOp (Pause " + hc.Z(t) + ")", o})
 			res.obs, res.feeds, prev = append(res.obs, o), append(res.feeds, Feed{T: [5]int64{t}}), o
+		case "touch", "append":
+			// somebody else touches one of the sink's files: metadata only (mtime to now / the past / the future, chmod and
+			// back, rewritten in place) — invisible to the model, which knows names, modes and contents — or appends the
+			// bytes of an earlier event to it
+			t := after(last+t0) - t0
+			lit := "XOp (Pause " + hc.Z(t) + ")"
+			if !special && prev != nil && op.Pos < len(prev.Files) {
+				f := prev.Files[op.Pos]
+				path := filepath.Join(dir, f.Name)
+				if op.K == "touch" {
+					switch op.How {
+					case 1:
+						if os.Chmod(path, os.FileMode(f.Mode)^0o040) == nil {
+							os.Chmod(path, os.FileMode(f.Mode))
+						}
+					case 2:
+						if f.Name != activeName { // the sink's descriptor must keep pointing at the active file
+							if b, err := os.ReadFile(path); err == nil {
+								tmp := filepath.Join(filepath.Dir(dir), "rewrite.tmp")
+								if os.WriteFile(tmp, b, 0o600) == nil && os.Chmod(tmp, os.FileMode(f.Mode)) == nil {
+									os.Rename(tmp, path)
+								}
+							}
+						}
+					}
+					if op.How != 1 {
+						when := time.Now()
+						if op.When == 1 {
+							when = when.Add(-time.Hour)
+						} else if op.When == 2 {
+							when = when.Add(time.Hour)
+						}
+						os.Chtimes(path, when, when)
+					}
+					tampers++
+				} else if b, ok := tk.byKey[byte(op.Src)]; ok {
+					if fh, err := os.OpenFile(path, os.O_WRONLY|os.O_APPEND, 0); err == nil {
+						fh.Write(b)
+						fh.Close()
+						lit = fmt.Sprintf("XAppend %s %s %s", hc.N(op.Pos), hc.N(op.Src), hc.Z(t))
+						tampers++
+					}
+				}
+			}
+			o := observe(true, nil)
+			last = max64(t, nowNs()-t0)
+			steps = append(steps, step{lit, o})
+			res.obs, res.feeds, prev = append(res.obs, o), append(res.feeds, Feed{T: [5]int64{t}}), o
 		case "rmdir", "rmactive":
 			// somebody deletes the whole log directory / only the file the sink has open
 			t := after(last+t0) - t0
@@ -759,6 +826,7 @@ func execSeq(c Case, root string) (res result) {
 		lastWasRm = op.K == "rmdir" || op.K == "rmactive"
 	}
 	res.stats["external_removals_done"] = removals
+	res.stats["external_touch_or_append_done"] = tampers
 	res.stats["rotations_observed"] = rotations
 	res.stats["ext_renames_done"] = extrens
 	res.stats["duration_ambiguous"] = ambiguous
@@ -841,7 +909,7 @@ func genCfg(r *hc.Rand, timeCases bool) Cfg {
 }
 
 // one operation, chosen knowing the sink's exported counters (boundary bias)
-func genOp(r *hc.Rand, cs Case, fs *el.FileSink, open bool, nextKey int, lastWasRm bool) Op {
+func genOp(r *hc.Rand, cs Case, fs *el.FileSink, open bool, nextKey int, lastWasRm bool, nfiles int) Op {
 	c := cs.Cfg
 	if cs.Rm && nextKey >= 2 {
 		// histories with deletions from outside: the interesting part is the next open() — Reopen or a rotating write
@@ -853,7 +921,14 @@ func genOp(r *hc.Rand, cs Case, fs *el.FileSink, open bool, nextKey int, lastWas
 			return Op{K: "rmdir"}
 		case y < 12:
 			return Op{K: "rmactive"}
+		case y < 17 && nfiles > 0:
+			return Op{K: "append", Pos: r.Intn(nfiles), Src: 1 + r.Intn(nextKey-1)}
 		}
+	}
+	if nfiles > 0 && r.Chance(7, 100) {
+		// oldest, newest (the active one) or any file; mtime now / past / future, chmod and back, rewrite in place
+		pos := []int{0, nfiles - 1, r.Intn(nfiles)}[r.Intn(3)]
+		return Op{K: "touch", Pos: pos, When: r.Intn(3), How: []int{0, 0, 0, 1, 2}[r.Intn(5)]}
 	}
 	x := r.Intn(100)
 	timed := c.MaxDurMs > 0
@@ -876,6 +951,11 @@ func genOp(r *hc.Rand, cs Case, fs *el.FileSink, open bool, nextKey int, lastWas
 		ctxKind := 0
 		if r.Chance(1, 3) {
 			ctxKind = 1 + r.Intn(4)
+		}
+		// an event whose formatted value is empty ([]byte{} or nil): as first write, right when the file is due, in between
+		due := c.MaxBytes > 0 && open && int(fs.BytesWritten) >= c.MaxBytes
+		if (nextKey < 2 && r.Chance(1, 6)) || (due && r.Chance(1, 4)) || r.Chance(1, 20) {
+			return Op{K: "w", Size: 0, Ctx: ctxKind, NilVal: r.Bool()}
 		}
 		return Op{K: "w", Size: size, Ctx: ctxKind}
 	case x < 70:
